@@ -1,0 +1,33 @@
+//go:build verif
+
+package route
+
+import (
+	"net/http"
+	"time"
+)
+
+// Verification hooks for property C20 (add-only, compiled only with -tags verif).
+// They expose the /1/events and /1/batch handlers of a Router that was assembled by hand
+// (the mux is built inside LnS together with the listeners), nothing else.
+
+// VerifC20Prepare initialises the unexported fields LnS sets up before it registers the handlers.
+func (r *Router) VerifC20Prepare() error {
+	r.iopLogger = iopLogger{Logger: r.Logger, incomingOrPeer: r.routerType.String()}
+	r.environmentCache = newEnvironmentCache(time.Hour, func(string) (authData, error) {
+		return authData{environment: "verif-env"}, nil
+	})
+	var err error
+	r.zstdDecoder, err = makeDecoders(0)
+	if err != nil {
+		return err
+	}
+	r.registerMetricNames()
+	return nil
+}
+
+// VerifC20Event is the handler registered for POST /1/events/{datasetName}.
+func (r *Router) VerifC20Event(w http.ResponseWriter, req *http.Request) { r.event(w, req) }
+
+// VerifC20Batch is the handler registered for POST /1/batch/{datasetName}.
+func (r *Router) VerifC20Batch(w http.ResponseWriter, req *http.Request) { r.batch(w, req) }
